@@ -3,6 +3,8 @@
 package header
 
 import (
+	"bytes"
+
 	zz "github.com/PowerDNS/lightningstream/internal/zzverif"
 )
 
@@ -23,7 +25,110 @@ func VerifC14PutBasic() {
 	zz.Assert(rtxn == uint64(txn), "C14/putbasic/txnid")
 	zz.Assert(b[16] == 0, "C14/putbasic/version")
 	zz.Assert(b[17] == uint8(fl), "C14/putbasic/flags")
-	zz.Assert(b[18] == 0 && b[19] == 0 && b[20] == 0 && b[21] == 0, "C14/putbasic/reserved")
-	zz.Assert(b[22] == 0 && b[23] == 0, "C14/putbasic/numextra")
+	zz.Assert(zz.And(zz.And(b[18] == 0, b[19] == 0), zz.And(b[20] == 0, b[21] == 0)), "C14/putbasic/reserved")
+	zz.Assert(zz.And(b[22] == 0, b[23] == 0), "C14/putbasic/numextra")
 	zz.Reach("C14/putbasic/end")
+}
+
+func verifRef(b []byte) (ok bool, tooShort bool, ts, txn uint64, flags uint8, n int) {
+	if len(b) < 24 {
+		return false, true, 0, 0, 0, 0
+	}
+	for i := 0; i < 8; i++ {
+		ts = ts<<8 | uint64(b[i])
+		txn = txn<<8 | uint64(b[8+i])
+	}
+	return true, false, ts, txn, b[17], int(b[22])<<8 | int(b[23])
+}
+
+// verifC14Read: arbitrary stored bytes of length n fed to Parse, Skip and ParseTimestamp.
+func verifC14Read(n int) {
+	b := zz.NondetBytes("val", n)
+	h, val, err := Parse(b)
+	sval, serr := Skip(b)
+	pts, perr := ParseTimestamp(b)
+	zz.Assert((perr == nil) == (n >= 8), "C14/parsets/error-iff-too-short")
+	if n < 24 {
+		zz.Assert(err == ErrTooShort, "C14/parse/too-short-rejected")
+		zz.Assert(serr == ErrTooShort, "C14/skip/too-short-rejected")
+		zz.Assert(val == nil && sval == nil, "C14/parse/no-value-on-error")
+		zz.Reach("C14/read/short")
+		return
+	}
+	_, _, ts, txn, fl, ne := verifRef(b)
+	zz.Assert(uint64(pts) == ts, "C14/parsets/value")
+	if b[16] != 0 {
+		zz.Assert(err == ErrVersion, "C14/parse/other-version-rejected")
+		zz.Assert(serr == ErrVersion, "C14/skip/other-version-rejected")
+		zz.Reach("C14/read/version")
+		return
+	}
+	if n < 24+8*ne {
+		zz.Assert(err == ErrTooShort, "C14/parse/missing-extension-bytes-rejected")
+		zz.Assert(serr == ErrTooShort, "C14/skip/missing-extension-bytes-rejected")
+		zz.Reach("C14/read/short-extra")
+		return
+	}
+	zz.Assert(err == nil, "C14/parse/accepts-well-formed")
+	zz.Assert(serr == nil, "C14/skip/accepts-well-formed")
+	if err != nil || serr != nil {
+		return
+	}
+	zz.Assert(uint64(h.Timestamp) == ts, "C14/parse/ts")
+	zz.Assert(uint64(h.TxnID) == txn, "C14/parse/txnid")
+	zz.Assert(uint8(h.Flags) == fl, "C14/parse/flags")
+	zz.Assert(h.NumExtra == ne, "C14/parse/numextra")
+	zz.Assert(bytes.Equal(val, b[24+8*ne:]), "C14/parse/value-after-all-extension-blocks")
+	zz.Assert(bytes.Equal(sval, b[24+8*ne:]), "C14/skip/value-after-all-extension-blocks")
+	zz.Assert(len(h.Extra) == 8*ne, "C14/parse/extra-len")
+	zz.Reach("C14/read/ok")
+}
+
+// VerifC14Read: all lengths 0..42 (header + up to 2 extension blocks + 2 value bytes).
+func VerifC14Read() { verifC14Read(zz.Shard(43)) }
+
+// VerifC14ReadBig: lengths around 24+8k for k<=4 plus one value byte (thorough).
+func VerifC14ReadBig() {
+	ls := []int{43, 47, 48, 49, 55, 56, 57, 58}
+	verifC14Read(ls[zz.Shard(len(ls))])
+}
+
+// VerifC14Bytes: Header.Bytes()/MarshalBinary writes a header that the reference reader
+// understands, for all field values and extension payloads up to 2 blocks.
+func VerifC14Bytes() {
+	ne := zz.Choice("numextra", 3)
+	el := zz.Choice("extralen", 18)
+	h := Header{
+		Timestamp: Timestamp(zz.NondetU64("ts")),
+		TxnID:     TxnID(zz.NondetU64("txn")),
+		Flags:     Flags(zz.NondetU8("flags")),
+		NumExtra:  ne,
+		Extra:     zz.NondetBytes("extra", el),
+	}
+	b := h.Bytes()
+	_, short, ts, txn, fl, n := verifRef(b)
+	zz.Assert(!short, "C14/bytes/min-size")
+	if short {
+		return
+	}
+	want := ne
+	if el > 8*ne {
+		want = (el + 7) / 8
+	}
+	zz.Assert(ts == uint64(h.Timestamp) && txn == uint64(h.TxnID), "C14/bytes/ts-txnid")
+	zz.Assert(fl == uint8(h.Flags) && b[16] == 0, "C14/bytes/flags-version")
+	zz.Assert(zz.And(zz.And(b[18] == 0, b[19] == 0), zz.And(b[20] == 0, b[21] == 0)), "C14/bytes/reserved")
+	zz.Assert(n == want, "C14/bytes/numextra-matches")
+	zz.Assert(len(b) == 24+8*want, "C14/bytes/length")
+	if len(b) == 24+8*want {
+		zz.Assert(bytes.Equal(b[24:24+el], h.Extra), "C14/bytes/extra-content")
+		for i := 24 + el; i < len(b); i++ {
+			zz.Assert(b[i] == 0, "C14/bytes/extra-padding-zero")
+		}
+	}
+	// round trip through the real parser
+	h2, rest, err := Parse(b)
+	zz.Assert(err == nil && len(rest) == 0, "C14/bytes/parse-roundtrip")
+	zz.Assert(h2.Timestamp == h.Timestamp && h2.TxnID == h.TxnID && h2.Flags == h.Flags, "C14/bytes/parse-roundtrip-fields")
+	zz.Reach("C14/bytes/end")
 }
